@@ -52,10 +52,10 @@ def unit_groups(root, tier):
 DIST_GROUPS = {"dist", "disttools", "distapps"}
 
 
-def files_regex(root):
+def files_regex(root, extra=None):
     r = root.rstrip("/")
-    return ("^(%s/(lib[a-z]+/(include|src)|tools|lonestar/(libdistbench|liblonestar))/|%s/(drivers|canaries)/)"
-            % (r, VERIF))
+    return ("^(%s/(lib[a-z]+/(include|src)|tools|lonestar/(libdistbench|liblonestar)%s)/|%s/(drivers|canaries)/)"
+            % (r, ("|" + extra) if extra else "", VERIF))
 
 
 class Ctx:
@@ -83,14 +83,14 @@ class Ctx:
         self._fnwrap = {}
 
     # -------------------------------------------------------------- facts
-    def load(self, *groups, patterns=False, ndebug=True, dist=None, extra_flags=None):
+    def load(self, *groups, patterns=False, ndebug=True, dist=None, extra_flags=None, files_extra=None):
         """facts of one or more unit groups (merged). In the thorough tier the
         whole `core` group is always included with the shared-memory groups."""
         if self.tier == "thorough" and any(
                 g in ("src", "tests") or g.startswith("drv_") for g in groups) and not any(
                 g in DIST_GROUPS or g.startswith("drv_dist") for g in groups):
             groups = tuple(dict.fromkeys(("core",) + groups))
-        k = (groups, patterns, ndebug, tuple(extra_flags or ()))
+        k = (groups, patterns, ndebug, tuple(extra_flags or ()), files_extra)
         if k in self.facts:
             return self.facts[k]
         allg = unit_groups(self.root, self.tier)
@@ -103,7 +103,7 @@ class Ctx:
                     units.append(u)
         if dist is None:
             dist = any(g in DIST_GROUPS or g.startswith("drv_dist") for g in groups)
-        fx = F.extract(units, root=self.root, files_re=files_regex(self.root),
+        fx = F.extract(units, root=self.root, files_re=files_regex(self.root, files_extra),
                        dist=dist, ndebug=ndebug, patterns=patterns, extra_flags=extra_flags)
         self.units_parsed += sum(1 for u in fx.units if u[1])
         for u, err in fx.failed_units:
